@@ -197,3 +197,40 @@ func MapOrderValues[M ~map[K]V, K comparable, V any](m M, site string) iter.Seq[
 		}
 	}
 }
+
+// ---- map accesses as scheduling points (concurrency overlay, selected packages only) ----
+
+// MapRange replaces `range m` in packages whose plain map accesses are made visible to the
+// scheduler: every element read is a scheduling point on the map's identity, so a writer that
+// mutates a published map in place can be interleaved with a reader iterating it. Without a
+// scheduler it is the native range.
+func MapRange[M ~map[K]V, K comparable, V any](m M, site string) iter.Seq2[K, V] {
+	return func(yield func(K, V) bool) {
+		if !On() {
+			for k, v := range m {
+				if !yield(k, v) {
+					return
+				}
+			}
+			return
+		}
+		cell := reflect.ValueOf(m).Pointer()
+		for _, k := range sortedKeys(m) {
+			Point(cell, KUser, "map-read "+site)
+			v, ok := m[k]
+			if !ok {
+				continue
+			}
+			if !yield(k, v) {
+				return
+			}
+		}
+	}
+}
+
+// MapWrite is inserted before `m[k] = v` and `delete(m, k)`.
+func MapWrite[M ~map[K]V, K comparable, V any](m M, site string) {
+	if On() && m != nil {
+		Point(reflect.ValueOf(m).Pointer(), KUser, "map-write "+site)
+	}
+}
